@@ -164,6 +164,38 @@ func (ix *sliceIndex) smtText(o *Oblig) string {
 	for _, p := range o.Pre {
 		sb.WriteString("(assert " + p + ")\n")
 	}
+	// universally quantified goal: skolemise it here and keep applications of the named spec predicates to the
+	// skolem constants alive as ground terms ("term seeding"), so that E-matching can instantiate the definitional
+	// axioms and the hypotheses that mention other instances of the same predicate
+	if binders, body, ok := splitForall(o.Goal); ok {
+		var consts [][2]string
+		for i, b := range binders {
+			c := fmt.Sprintf("sk!%d", i)
+			sb.WriteString(fmt.Sprintf("(declare-const %s %s)\n", c, b[1]))
+			body = strings.ReplaceAll(body, b[0], c)
+			consts = append(consts, [2]string{c, b[1]})
+		}
+		sb.WriteString("(declare-fun seed!B (Bool) Bool)\n")
+		nseed := 0
+		for _, i := range idx {
+			d := ix.decls[i]
+			if !strings.HasPrefix(d, "(declare-fun |spec.") {
+				continue
+			}
+			name, sorts, res := parseDeclFun(d)
+			if res != "Bool" || len(sorts) == 0 || len(sorts) > 2 {
+				continue
+			}
+			for _, combo := range seedCombos(sorts, consts) {
+				if nseed < 60 {
+					sb.WriteString(fmt.Sprintf("(assert (seed!B (%s %s)))\n", name, strings.Join(combo, " ")))
+					nseed++
+				}
+			}
+		}
+		sb.WriteString("(assert (not " + body + "))\n(check-sat)\n")
+		return sb.String()
+	}
 	sb.WriteString("(assert (not " + o.Goal + "))\n(check-sat)\n")
 	return sb.String()
 }
@@ -293,5 +325,73 @@ func (sv *Solver) model(text string, secs int) string {
 	ctx, cancel := context.WithTimeout(context.Background(), time.Duration(secs+1)*time.Second)
 	defer cancel()
 	_, out := runOne(ctx, "z3-new", []string{fmt.Sprintf("-T:%d", secs), "model.completion=true", file})
+	return out
+}
+
+// splitForall: "(forall ((v S) ...) body)" -> binders, body
+func splitForall(g string) (binders [][2]string, body string, ok bool) {
+	const pre = "(forall ("
+	if !strings.HasPrefix(g, pre) || !strings.HasSuffix(g, ")") {
+		return nil, "", false
+	}
+	i := len(pre)
+	for i < len(g) && g[i] == '(' {
+		j := strings.IndexByte(g[i:], ')')
+		if j < 0 {
+			return nil, "", false
+		}
+		f := strings.Fields(g[i+1 : i+j])
+		if len(f) != 2 {
+			return nil, "", false
+		}
+		binders = append(binders, [2]string{f[0], f[1]})
+		i += j + 1
+		for i < len(g) && g[i] == ' ' {
+			i++
+		}
+	}
+	if i >= len(g) || g[i] != ')' {
+		return nil, "", false
+	}
+	body = strings.TrimSpace(g[i+1 : len(g)-1])
+	if strings.HasPrefix(body, "(! ") {
+		// drop a pattern annotation
+		if k := strings.LastIndex(body, " :pattern"); k > 0 {
+			body = strings.TrimSpace(body[3:k])
+		}
+	}
+	return binders, body, len(binders) > 0
+}
+
+func parseDeclFun(d string) (name string, sorts []string, res string) {
+	// (declare-fun |name| (S1 S2) R)
+	i := strings.Index(d, "|")
+	j := strings.Index(d[i+1:], "|")
+	name = d[i : i+j+2]
+	rest := d[i+j+2:]
+	a, b := strings.Index(rest, "("), strings.Index(rest, ")")
+	if a < 0 || b < a {
+		return
+	}
+	sorts = strings.Fields(rest[a+1 : b])
+	res = strings.TrimSpace(strings.TrimSuffix(strings.TrimSpace(rest[b+1:]), ")"))
+	return
+}
+
+func seedCombos(sorts []string, consts [][2]string) [][]string {
+	var out [][]string
+	var rec func(i int, cur []string)
+	rec = func(i int, cur []string) {
+		if i == len(sorts) {
+			out = append(out, append([]string{}, cur...))
+			return
+		}
+		for _, c := range consts {
+			if c[1] == sorts[i] {
+				rec(i+1, append(cur, c[0]))
+			}
+		}
+	}
+	rec(0, nil)
 	return out
 }
